@@ -1119,12 +1119,27 @@ def k_ecpvalidators(L, c, R):
     for key, rec, msg in r['viol']:
         R.bad(key.replace('ecp:validators:', ''), dict(c), msg)
 
+def k_stdgroup(L, c, R):
+    """ecpSeemsValidGroup / ec2SeemsValidGroup on a standard curve with the order moved across the Hasse boundary (C06 owns the curve
+    contexts); the headers define the predicate exactly"""
+    import C06
+    fam, name = c['fam'], c['name']
+    ref = C06.ref_params(fam, name)
+    binary = fam == 'dstu'
+    spec = ('2', ref['poly'], ref['a'], ref['b']) if binary else ('p', ref['p'], ref['a'], ref['b'])
+    ctx = C06.get_ctx(c['cfg'], spec)
+    G = ref['G'] if ref['G'] is not None else C06.std_points(ctx.E, ref, binary)[0]
+    v, calls = C06.std_group_validators(ctx, G, ref['q'], ref['h'], ref, binary)
+    R.n += calls; R.outc('group validator calls on standard curves', calls)
+    if v:
+        R.bad(v[0], dict(c), v[2])
+
 # ================================================================== dispatcher
 KINDS = {'date2_all': k_date2_all, 'date2': k_date2, 'date_range': k_date_range, 'isprimew': k_isprimew, 'nextprimew': k_nextprimew,
          'nextprime': k_nextprime, 'sieved': k_sieved, 'smooth': k_sieved, 'primeval': k_primeval, 'isprime_range': k_isprime_range, 'carm': k_carm,
          'irred': k_irred, 'irred_big': k_irred_big, 'bels_std': k_bels_std, 'std': k_std, 'params': k_params, 'bignkey': k_bignkey,
          'dstupoint': k_dstupoint, 'pfokkey': k_pfokkey, 'pqfam': k_pqfam, 'seed': k_seed, 'gen': k_gen, 'batch': k_batch,
-         'bigngen': k_bigngen, 'sgprime': k_sgprime, 'sgrange': k_sgrange, 'ecpvalidators': k_ecpvalidators}
+         'bigngen': k_bigngen, 'sgprime': k_sgprime, 'sgrange': k_sgrange, 'ecpvalidators': k_ecpvalidators, 'stdgroup': k_stdgroup}
 
 def run_case(c):
     L = common.lib(c['cfg'])
@@ -1500,6 +1515,7 @@ def run(tier):
         J += prime_jobs(tier, cfg) + poly_jobs(tier, cfg)
         import C06
         J += [dict(cfg=cfg, part='curve / group validators on small curves', kind='ecpvalidators', spec=['p', p, a, b]) for p, a, b in C06.validator_curves(tier)]
+        J += [dict(cfg=cfg, part='group validators on standard curves (Hasse boundary)', kind='stdgroup', fam=fam, name=name) for fam, name in C06.std_list('thorough')]
     only = [x for x in os.environ.get('C12_ONLY', '').split(',') if x]       # development aid: run a subset of the parts
     if only:
         J = [j for j in J if 'expand' in j or any(x in j['part'] for x in only)]
